@@ -126,7 +126,7 @@ LedgerEvents(s) ==
   \cup (IF s.nextB <= s.maxB /\ (Thorough \/ s.fee = 0) THEN UpdParams({"gov"}, {0, 1} \ {s.fee}) ELSE {})
   \cup (IF Thorough \/ s.now = 3 THEN ExpImp ELSE {})
 
-WVariants == {W1, [W1 EXCEPT !.amt = 2], [W1 EXCEPT !.to = "u2"], [W1 EXCEPT !.from = "u1", !.to = "u2"], [W1 EXCEPT !.seq = 2], [W1 EXCEPT !.denom = "d2"]}
+WVariants == {W1, [W1 EXCEPT !.from = "up:u2"], [W1 EXCEPT !.amt = 2], [W1 EXCEPT !.to = "u2"], [W1 EXCEPT !.from = "u1", !.to = "u2"], [W1 EXCEPT !.seq = 2], [W1 EXCEPT !.denom = "d2"]}
 BadPos == {c \in {Claim("x", b, o, w, 0, t, pos, "h1", "none") : b \in {1, 2}, o \in 1..3, w \in {W1, W2, W3}, t \in {"T1", "T2", "T3"}, pos \in 1..3} : c.pos > Len(c.tree.leaves)}
           \cup {c \in {Claim("u1", 1, o, w, v, t, pos, h, m) : o \in 1..2, w \in WVariants, v \in {0, 1}, t \in {"T1"}, pos \in {2}, h \in {"h1", "h2"}, m \in ProofMuts \cup {"len31"}} : TRUE}
 ClaimEvents(s) ==
